@@ -49,7 +49,8 @@ CFG = {
                   "Composition with C02 (Props/C08Spec): for every schedule the delivered items are exactly what the reference machine of Spec/VT500.lean prescribes for the same labels - runes through the VT500 machine "
                   "(F102 on; F102c is repaired), the Escape key = Spec escKey at every up-to-date timer firing and nowhere else, the open control string at end of input, one EOF; for segment scripts this is Spec.runWithEscKeysD, the driver's oracle. "
                   "Round 4 - forced schedules: every schedule the model hands to the harness is a complete run of the statement-grained LTS (enumerate_sound), the list is exactly the set of complete interleavings under two commuting reductions "
-                  "(enumerate_complete), every replayed label is one or two statements of FSys.step (srun_is_fine_run), so the theorems above speak about each replay; without escGen++ before emit(EOF) the callback of a lone ESC sends on the closed channel, "
+                  "(enumerate_complete), every replayed label is one or two statements of FSys.step (srun_is_fine_run), so the theorems above speak about each replay; the oracle clauses of the replay are theorems of the LTS: "
+                  "guarded fields are written only by the goroutine holding the mutex (fine_writes_under_mutex), a lone ESC followed by silence is reported in every interleaving (fine_lone_esc_reported); without escGen++ before emit(EOF) the callback of a lone ESC sends on the closed channel, "
                   "with the bump moved into escape() a SUB does not outdate it (statement-grained witnesses = the replays found on the changed code). "
                   "Fair-run termination at statement grain (Props/C08FineFair): for every finite input, every expiry policy and any capacity >= 1 the fair scheduler over the bounded-channel statement system ends within an explicit bound with run() returned, "
                   "the channel closed and drained, every callback returned, received = pre ++ [EOF], nothing lost; for the parser's table every scripted input is read and the received stream is the Spec's; after Close() and the return of the pending read "
